@@ -23,5 +23,6 @@ Extraction "model.ml" peval_q geval_q lp_get_q lp_norm2_q lp_degree_q lp_parity_
   check_c01 c01_norm check_ipoly ipoly_norm scaleZ
   check_c07 c07_norm check_roundtrip
   check_resp_val resp_dists
-  check_completion unit_residual.
+  check_completion unit_residual
+  check_pcompletion corner_norm_q check_c02 corner_norm_i.
 Cd "..".
